@@ -11,10 +11,14 @@ counters only:
              comparison is made synchronously inside the child, which is stopped by the first counter that crosses
   growth     no counter shows three consecutive growth ratios w(n+1)/w(n) >= 1.8 at n >= 8 (a polynomial of
              degree <= 4 has ratio <= (9/8)^4 = 1.6 there and falling; exponential growth keeps its base)
-  constants  no constant folding produces (or is still computing when the child is stopped, or dies of
-             MemoryError computing) a value of more than 10^6 bits ("unbounded constant folding"); the size is
-             predicted from the operand sizes before the evaluation so that the witness exists even if the child
-             never comes back
+  constants  no constant folding produces - or ENTERS the computation of, whatever becomes of it (MemoryError
+             swallowed, child never back) - a value larger than lian's own bound config.MAX_FOLDED_CONSTANT_BITS
+             (read from the tree under test, never above the committed ceiling of 10^6 bits).  Observed at
+             const_fold.fold_constants (every value produced), at the entries of const_fold.FOLD_OPERATORS (the
+             decision to compute; size predicted from the decoded operands by a lower estimate that covers both
+             operand orders; the child is stopped there, before the allocation) and at util.strict_eval (old trees,
+             frontends).  Nothing stored in the P2 / P3 state spaces is larger than 4 x that bound or than the
+             program text; the peak RSS of a hostile-constant family stays flat along its ladder of literals
   crash      the run is not killed by a signal and does not die of resource exhaustion (RecursionError,
              MemoryError, OverflowError, the int->str digit limit); other exception types are functional defects
              (C03's business): recorded, not judged here
@@ -43,6 +47,8 @@ DECIDING = (
     "taint_pops", "taint_propagations", "taint_enqueue_calls",
     "strict_eval_calls", "strict_eval_bytes", "strict_eval_max_bytes",
     "strict_eval_max_result_bits",
+    "fold_attempts", "fold_operand_bytes", "fold_max_compute_bits", "fold_max_result_bits",
+    "p3_max_const_bits", "p2_max_const_bits",
     "p2_frames", "p2_methods", "stmt_transfers_p2", "call_resolutions_p2", "prep_files",
 )
 # counters that must be reached for the run to count as observed at all
@@ -50,6 +56,10 @@ FLOOR_ALWAYS = ("gir_stmts", "calls_lang", "calls_basics", "calls_core", "p3_fra
                 "handler_runs", "space_adds", "p3_space_len", "sfg_edges", "prep_files", "calls_structs")
 FLOOR_P2 = ("p2_frames", "p2_methods", "stmt_transfers_p2")
 FLOOR_TAINT = ("taint_pops", "taint_propagations", "calls_taint")
+# fold hooks: every hostile-constant run must reach const_fold.fold_constants (when the tree has it), and the families
+# that contain small folds must reach the operator table (the place where the decision to compute is observed)
+FLOOR_FOLD = ("fold_attempts", "fold_computes", "p3_max_const_bits", "maxrss_kb")
+FOLD_COMPUTE_FAMILIES = ("hostile_orders", "js_hostile_orders", "fold_double", "fold_square", "hostile_concat", "binop_chain")
 
 # Mechanism signatures name the GROUP of the counter (correlated counters cross their envelopes together and which of
 # them is first differs with n); the description names the exact counter.
@@ -58,7 +68,10 @@ GROUPS = {
     "frames": ("p3_frames", "p2_frames", "p2_methods", "call_paths", "call_resolutions_p3", "call_resolutions_p2"),
     "transfers": ("stmt_transfers_p3", "stmt_transfers_p2", "handler_runs", "calls_core", "calls_basics", "calls_structs"),
     "values": ("space_adds", "states_created", "p3_space_len", "strict_eval_calls", "strict_eval_bytes",
-               "strict_eval_max_bytes", "strict_eval_max_result_bits"),
+               "strict_eval_max_bytes", "strict_eval_max_result_bits", "fold_attempts", "fold_operand_bytes"),
+    "result_bits": ("fold_max_compute_bits", "fold_max_result_bits"),
+    "stored": ("p3_max_const_bits", "p2_max_const_bits"),
+    "rss": ("maxrss_kb",),
     "sfg": ("sfg_nodes", "sfg_edges", "sfg_add_edge_calls"),
     "taint": ("taint_pops", "taint_propagations", "taint_enqueue_calls", "calls_taint"),
 }
@@ -71,7 +84,14 @@ GROWTH_MIN_N = 8
 GROWTH_MIN_VALUE = 40       # ratios of tiny counts (1, 2, 4 ...) are not evidence of anything
 # sizes of ONE folded constant are bounded absolutely (MAX_FOLD_BITS / envelope), a cap makes them saturate: the ratio
 # test is for work, i.e. for sums
-NO_GROWTH_TEST = ("strict_eval_max_bytes", "strict_eval_max_result_bits")
+NO_GROWTH_TEST = ("strict_eval_max_bytes", "strict_eval_max_result_bits", "fold_max_compute_bits", "fold_max_result_bits",
+                  "p3_max_const_bits", "p2_max_const_bits")
+# counters of the const_fold hooks share the committed envelopes of the strict_eval counters they replace (one fold
+# attempt = one former strict_eval call, operand bytes = former text bytes), with 4x extra room: on the healthy tree
+# they stay below 0.3 x the old envelope, i.e. >= 13x head-room
+ENVELOPE_ALIAS = {"fold_attempts": ("strict_eval_calls", 4.0), "fold_operand_bytes": ("strict_eval_bytes", 4.0)}
+STORED_CONSTANT_FACTOR = 4          # a B-bit integer is stored as decimal text: 2.41 x B bits of characters
+RSS_GROWTH_KB = 128 * 1024          # peak RSS of a hostile-constant family may not grow by more than this along its ladder
 
 ENVELOPES = {}              # replaced by the committed table at the end of this file
 
@@ -150,24 +170,51 @@ def run_case(case):
     wall = time.time() - t0
     wc.stop_timer()
     wc.dump(final=True)
-    return {"counters": wc.snapshot(), "evals": wc.evals, "outcome": outcome, "detail": detail, "wall": round(wall, 3),
+    return {"counters": wc.snapshot(), "evals": wc.evals, "info": wc.info, "outcome": outcome, "detail": detail, "wall": round(wall, 3),
             "size": prog.size, "lines": prog.lines, "lang": prog.lang}
 
 
 # =============================================================================================================
 # parent side
-def envelope_limit(family, counter, n):
+_FOLD_BOUND = []
+
+
+def fold_bound():
+    """The size bound of constant folding as configured in the tree under test (config.MAX_FOLDED_CONSTANT_BITS), never
+    above the committed absolute ceiling MAX_FOLD_BITS; MAX_FOLD_BITS when the tree has no such setting."""
+    if not _FOLD_BOUND:
+        b = 0
+        try:
+            from lian.config import config as lian_config
+            b = int(getattr(lian_config, "MAX_FOLDED_CONSTANT_BITS", 0) or 0)
+        except Exception:
+            b = 0
+        _FOLD_BOUND.append(min(b, MAX_FOLD_BITS) if b > 0 else MAX_FOLD_BITS)
+    return _FOLD_BOUND[0]
+
+
+def envelope_limit(family, counter, n, size=0):
+    if counter in ("fold_max_compute_bits", "fold_max_result_bits"):
+        return fold_bound()
+    if counter in ("p3_max_const_bits", "p2_max_const_bits"):
+        # nothing stored is larger than the bound of folding or than the program text itself
+        return max(STORED_CONSTANT_FACTOR * fold_bound(), 8 * size + 64)
+    factor = 1.0
+    if counter in ENVELOPE_ALIAS:
+        counter, factor = ENVELOPE_ALIAS[counter]
     e = ENVELOPES.get(family, {}).get(counter)
     if e is None:
         return None
     a, d = e
-    return int(a * (n + 1) ** d) + 1
+    return int(factor * a * (n + 1) ** d) + 1
 
 
-def limits_for(family, n):
+def limits_for(family, n, size=0):
     out = {}
     for k in DECIDING:
-        lim = envelope_limit(family, k, n)
+        if k.startswith("fold_max_") and os.environ.get("VERIF_C13_LET_FOLDS_RUN"):
+            continue     # developer switch: do not stop the child at the decision, let the size / stored / RSS oracles see it
+        lim = envelope_limit(family, k, n, size)
         if lim is not None:
             out[k] = lim
     return out
@@ -179,9 +226,10 @@ def make_case(chk_dir, family, n, p2, variant, tier):
     os.makedirs(d, exist_ok=True)
     hostile = fam.hostile
     wd = (20.0 if hostile else 45.0) if tier == "quick" else (45.0 if hostile else 240.0)     # CPU seconds
+    size = fam.make(n, variant).size
     return {"family": family, "n": n, "p2": bool(p2), "variant": variant, "dir": d,
-            "dump": os.path.join(d, "series.jsonl"), "watchdog": wd,
-            "rlimit_mb": 4096 if hostile else 16384, "limits": limits_for(family, n), "interval": 1.0}
+            "dump": os.path.join(d, "series.jsonl"), "watchdog": wd, "size": size,
+            "rlimit_mb": 4096 if hostile else 16384, "limits": limits_for(family, n, size), "interval": 1.0}
 
 
 def case_key(case):
@@ -190,9 +238,20 @@ def case_key(case):
 
 def sig(family, counter, kind, p2_only):
     group = GROUP_OF.get(counter, counter)
-    if family in gen_adv.FAMILIES and gen_adv.FAMILIES[family].hostile and group == "values":
+    if family in gen_adv.FAMILIES and gen_adv.FAMILIES[family].hostile and group in ("values", "result_bits", "stored", "rss"):
         family = "constant_folding"       # the hostile-constant families exist to exercise exactly this mechanism
     return f"{family}:{group}:{kind}" + (":p2" if p2_only else "")
+
+
+def fold_label(e):
+    """Mechanism of a fold witness: operator and, when the operands were seen decoded, their types in source order."""
+    shape = e.get("shape") or ""
+    if e.get("via") == "FOLD_OPERATORS" and shape:
+        for sym in ("**", "<<", ">>", "//", "*", "+", "-", "/", "%", "&", "|", "^"):
+            if sym in shape:
+                a, b = shape.split(sym, 1)
+                return f"{e['op']}:{a},{b}"
+    return str(e.get("op"))
 
 
 def growing_counter(series):
@@ -222,6 +281,8 @@ class Judge:
         self.applicable = {}   # counter -> runs in which it could have been non-zero
         self.max_ratio = {}    # family -> (ratio, counter, n)
         self.runs = 0
+        self.fold_hooks = set()
+        self.hostile_runs = 0
         self.other_crashes = []   # exceptions that are not resource exhaustion: recorded, not judged (C03's business)
 
     def fail(self, family, counter, kind, p2, desc, case, extra=None):
@@ -230,8 +291,32 @@ class Judge:
             c["witness"] = extra
         self.fails.append((family, counter, kind, bool(p2), desc, c))
 
-    def note_floor(self, counters, p2, taint_possible):
-        groups = [(FLOOR_ALWAYS, True), (FLOOR_P2, p2), (FLOOR_TAINT, taint_possible)]
+    def judge_folds(self, evals, fam, n, p2, case):
+        """The witnesses the fold hooks left behind: a value larger than the bound was produced, or lian entered the
+        computation of one (whatever became of it: MemoryError swallowed, child stopped by the monitor ...)."""
+        for e in evals:
+            b = e.get("bound") or 0
+            bound = min(b, MAX_FOLD_BITS) if b > 0 else MAX_FOLD_BITS
+            produced = e.get("evaluated") and e.get("result_bits", 0) > bound
+            entered = e.get("entered") and e.get("predicted_bits", 0) > bound
+            blew = e.get("raised") in ("MemoryError", "OverflowError") and e.get("predicted_bits", 0) > bound
+            if produced or entered or blew:
+                what = (f"produced {e.get('result_bits')} bits" if produced else
+                        f"entered the computation (raised={e.get('raised')}, stopped by the monitor or swallowed)")
+                self.fail(f"constant_folding[{fold_label(e)}]", "result_bits", "envelope", p2,
+                          f"{fam}(n={n}): unbounded constant folding: `{e['text']}` ({e.get('predicted_bits', 0):.3g} bits "
+                          f"predicted from the operands, bound {bound} bits): lian {what}, {e.get('wall_s')} s",
+                          case, {"fold": e})
+                return True
+        return False
+
+    def note_floor(self, counters, p2, taint_possible, fam=None, info=None):
+        hooks = (info or {}).get("fold_hooks", [])
+        hostile = fam in gen_adv.FAMILIES and gen_adv.FAMILIES[fam].hostile
+        groups = [(FLOOR_ALWAYS, True), (FLOOR_P2, p2), (FLOOR_TAINT, taint_possible),
+                  (("fold_attempts",), hostile and "fold_constants" in hooks),
+                  (("fold_computes",), fam in FOLD_COMPUTE_FAMILIES and "FOLD_OPERATORS" in hooks),
+                  (("p3_max_const_bits", "maxrss_kb"), True)]
         for keys, applies in groups:
             if not applies:
                 continue
@@ -239,6 +324,11 @@ class Judge:
                 self.applicable[k] = self.applicable.get(k, 0) + 1
                 if counters.get(k, 0) > 0:
                     self.nonzero[k] = self.nonzero.get(k, 0) + 1
+        if hostile:          # whatever the tree folds with, the hostile-constant runs must have been seen folding
+            k = "a fold hook (fold_constants or strict_eval)"
+            self.applicable[k] = self.applicable.get(k, 0) + 1
+            if counters.get("fold_attempts", 0) > 0 or counters.get("strict_eval_calls", 0) > 0:
+                self.nonzero[k] = self.nonzero.get(k, 0) + 1
 
     def result(self, r):
         chk, case = self.chk, r.item
@@ -255,14 +345,14 @@ class Judge:
                 chk.count("sum " + k, cnt.get(k, 0))
             if cnt.get("p3_frames", 0) > 0 and cnt.get("stmt_transfers_p3", 0) > 0:
                 chk.nontrivial_case((fam, n, p2))
-            self.note_floor(cnt, p2, cnt.get("taint_sources", 0) > 0)
+            self.note_floor(cnt, p2, cnt.get("taint_sources", 0) > 0, fam, v.get("info"))
             # crashes
             if v["outcome"] == "exception":
                 d = v["detail"]
                 chk.count("runs ended by an exception", 1)
                 sfam, kind = fam, f"crash:{d['type']}@{d['where']}"
                 intstr = d["type"] == "ValueError" and "integer string conversion" in d["msg"]
-                if intstr and cnt.get("strict_eval_max_result_bits", 0) > 14000:
+                if intstr and max(cnt.get("strict_eval_max_result_bits", 0), cnt.get("fold_max_result_bits", 0)) > 14000:
                     # a folded constant too large for int -> str (raised wherever the value is first printed)
                     sfam, kind = "constant_folding", "crash:ValueError[int-to-str-limit]"
                 if d["type"] in RESOURCE_CRASHES or intstr:
@@ -280,27 +370,22 @@ class Judge:
                 self.table.setdefault((fam, p2), {})[n] = cnt
                 self.walls.setdefault((fam, p2), {})[n] = v["wall"]
             # constants: what the evaluation actually did
-            fold_failed = False
-            for e in v["evals"]:
-                produced = e.get("evaluated") and e.get("result_bits", 0) > MAX_FOLD_BITS
-                blew = e.get("raised") in ("MemoryError", "OverflowError") and e["predicted_bits"] > MAX_FOLD_BITS
-                if produced or blew:
-                    fold_failed = True
-                    self.fail(f"constant_folding[{e['op']}]", "result_bits", "envelope", p2,
-                              f"{fam}(n={n}): unbounded constant folding: lian evaluated `{e['text']}` "
-                              f"({e['predicted_bits']:.3g} bits predicted from the operands, limit {MAX_FOLD_BITS}): "
-                              f"result {e.get('result_bits')} bits, raised={e.get('raised')}, {e.get('wall_s')} s",
-                              case, {"fold": e})
-                    break
+            cnt["program_bytes"] = v.get("size", 0)
+            self.fold_hooks.update((v.get("info") or {}).get("fold_hooks", []))
+            fold_failed = self.judge_folds(v["evals"], fam, n, p2, case)
             # envelope
             for k in DECIDING:
-                lim = envelope_limit(fam, k, n)
+                lim = envelope_limit(fam, k, n, v.get("size", 0))
                 if lim is not None and cnt.get(k, 0) > lim:
-                    if k.startswith("strict_eval_") and fold_failed:
+                    if (k.startswith("strict_eval_") or k.startswith("fold_max_")) and fold_failed:
                         continue
+                    extra = {"value": cnt.get(k, 0), "limit": lim}
+                    if k.endswith("_max_const_bits"):
+                        extra["largest_constant"] = (v.get("info") or {}).get(k[:2] + "_largest_constant")
                     self.fail(fam, k, "envelope", p2,
-                              f"{fam}(n={n}, p2={p2}): {k} = {cnt.get(k, 0)} exceeds its polynomial envelope {lim}",
-                              case, {"value": cnt.get(k, 0), "limit": lim})
+                              f"{fam}(n={n}, p2={p2}): {k} = {cnt.get(k, 0)} exceeds its "
+                              f"{'bound' if GROUP_OF.get(k) in ('result_bits', 'stored') else 'polynomial envelope'} {lim}",
+                              case, extra)
             return
         # ---- the child did not deliver a result --------------------------------------------------------
         last = series[-1] if series else {}
@@ -308,15 +393,9 @@ class Judge:
         if r.status in ("abort", "lost") and note and note.get("abort") == "envelope":
             chk.count("runs stopped by the in-child envelope", 1)
             chk.nontrivial_case((fam, n, p2))
-            for e in note.get("evals", []):
-                if e.get("evaluated") and e.get("result_bits", 0) > MAX_FOLD_BITS:
-                    self.fail(f"constant_folding[{e['op']}]", "result_bits", "envelope", p2,
-                              f"{fam}(n={n}): unbounded constant folding: lian evaluated `{e['text']}` "
-                              f"({e['predicted_bits']:.3g} bits predicted from the operands, limit {MAX_FOLD_BITS}): "
-                              f"result {e.get('result_bits')} bits, {e.get('wall_s')} s", case, {"fold": e})
-                    if note["counter"].startswith("strict_eval_"):
-                        return
-                    break
+            if self.judge_folds(note.get("evals", []), fam, n, p2, case) and (
+                    note["counter"].startswith("strict_eval_") or note["counter"].startswith("fold_max_")):
+                return
             self.fail(fam, note["counter"], "envelope", p2,
                       f"{fam}(n={n}, p2={p2}): {note['counter']} reached {note['value']} > envelope {note['limit']} after "
                       f"{last.get('t')} s and was still running (analysis stopped by the monitor)", case,
@@ -338,8 +417,8 @@ class Judge:
                                       f"child got only {used:.0f} s of CPU (machine overloaded)")
                 return
             if pend:
-                self.fail(f"constant_folding[{pend['op']}]", "result_bits", "watchdog", p2,
-                          f"{fam}(n={n}): unbounded constant folding: still inside strict_eval(`{pend['text']}`), predicted "
+                self.fail(f"constant_folding[{fold_label(pend)}]", "result_bits", "watchdog", p2,
+                          f"{fam}(n={n}): unbounded constant folding: still computing `{pend['text']}`, predicted "
                           f"result {pend['predicted_bits']:.3g} bits, when the {case['watchdog']:.0f} CPU-s watchdog fired",
                           case, {"fold": pend, "last_snapshot_t": last.get("t")})
                 return
@@ -382,7 +461,31 @@ class Judge:
         return "?"
 
     # ---- growth test over the completed table ---------------------------------------------------------
+    def rss_growth(self):
+        """Hostile-constant families: the peak RSS of the child must stay flat along the ladder (the program text grows by
+        a digit per step); growth beyond RSS_GROWTH_KB + 16 x the growth of the text is memory that depends on the VALUE
+        of a literal."""
+        for (fam, p2), rows in sorted(self.table.items()):
+            if not gen_adv.FAMILIES[fam].hostile:
+                continue
+            ns = sorted(n for n in rows if rows[n].get("maxrss_kb", 0) > 0)
+            if len(ns) < 2:
+                continue
+            base = min(ns, key=lambda n: rows[n]["maxrss_kb"])
+            for n in ns:
+                grow = rows[n]["maxrss_kb"] - rows[base]["maxrss_kb"]
+                allowed = RSS_GROWTH_KB + 16 * max(0, rows[n].get("program_bytes", 0) - rows[base].get("program_bytes", 0)) // 1024
+                if grow > allowed:
+                    seq = {m: rows[m]["maxrss_kb"] for m in ns}
+                    case = {"family": fam, "n": n, "p2": p2, "variant": self.variant, "dir": "", "dump": "", "watchdog": 0}
+                    self.fail(fam, "maxrss_kb", "growth", p2,
+                              f"{fam}(p2={p2}): peak RSS grows with the value of the literal: +{grow // 1024} MB between n={base} "
+                              f"and n={n} (allowed {allowed // 1024} MB): {seq}", case,
+                              {"sequence": seq, "sweep": sorted({base, n})})
+                    break
+
     def growth(self):
+        self.rss_growth()
         for (fam, p2), rows in sorted(self.table.items()):
             if not gen_adv.FAMILIES[fam].growth:
                 continue
@@ -434,7 +537,8 @@ class Judge:
 def compact_table(table, walls):
     keys = ("gir_stmts", "p3_frames", "stmt_transfers_p3", "stmt_transfers_p2", "handler_runs", "space_adds",
             "p3_space_len", "sfg_edges", "call_paths", "taint_pops", "strict_eval_calls", "strict_eval_bytes",
-            "strict_eval_max_result_bits", "calls_core", "calls_taint")
+            "strict_eval_max_result_bits", "fold_calls", "fold_attempts", "fold_computes", "fold_operand_bytes",
+            "fold_max_compute_bits", "fold_max_result_bits", "p3_max_const_bits", "maxrss_kb", "calls_core", "calls_taint")
     out = {}
     for (fam, p2), rows in sorted(table.items()):
         out[f"{fam}{'+p2' if p2 else ''}"] = {
@@ -586,11 +690,12 @@ def main():
     judge.growth()
     judge.report()
     # floors: every deciding counter non-zero on >= 80 % of the runs it applies to
-    for k in FLOOR_ALWAYS + FLOOR_P2 + FLOOR_TAINT:
+    for k in FLOOR_ALWAYS + FLOOR_P2 + FLOOR_TAINT + FLOOR_FOLD + ("a fold hook (fold_constants or strict_eval)",):
         app = judge.applicable.get(k, 0)
         chk.counters[f"runs with non-zero {k}"] = judge.nonzero.get(k, 0)
-        if only is None:
+        if only is None and not (k in FLOOR_FOLD and app == 0):     # app == 0: the tree has no such hook point
             chk.require(f"runs with non-zero {k}", max(1, int(0.8 * app)))
+    chk.extra["fold_observation"] = {"hooks_seen": sorted(judge.fold_hooks), "bound_bits_from_lian_config": fold_bound()}
     if only is None:
         chk.require("runs completed with counters", int(0.8 * len(cases)))
     chk.extra["tables"] = compact_table(judge.table, judge.walls)
@@ -611,6 +716,8 @@ def main():
         "envelopes are committed constants (>= 10x head-room), calibrated on the tree with the proposed C13 repairs applied",
         "exceptions other than resource exhaustion end a run without a C13 verdict (listed under other_crashes_not_judged)",
         "wall-clock time never decides; a watchdog without counter evidence is inconclusive",
+        "the bound on folded constants is the one configured in the tree under test (config.MAX_FOLDED_CONSTANT_BITS), capped by "
+        "the committed ceiling of 10^6 bits; the peak-RSS line allows 128 MB + 16 x the growth of the program text",
         "the maxima over 'all programs of the other generators' are not included (those generators belong to other checks)",
     ]
     sys.exit(chk.finish())
@@ -1033,6 +1140,14 @@ ENVELOPES = {
 # fold_asym (added after a seeded change that squared only the first operand's count slipped through): same linear
 # shape of work as fold_depth on the healthy tree, so it shares that family's committed envelope with 2x extra room.
 ENVELOPES['fold_asym'] = {k: (2 * a, d) for k, (a, d) in ENVELOPES['fold_depth'].items()}
+
+
+# hostile_orders / js_hostile_orders (both operand orders of the asymmetric operators; added after a seeded change that
+# mis-bounded only `<int> * "<str>"` slipped through): the same constant-per-n shape of work as hostile_pow with a
+# program seven times as long; measured on the healthy tree every counter stays below 1.1 x hostile_pow's envelope, so
+# 15 x that envelope keeps >= 10 x head-room.
+ENVELOPES['hostile_orders'] = {k: (15 * a, d) for k, (a, d) in ENVELOPES['hostile_pow'].items()}
+ENVELOPES['js_hostile_orders'] = {k: (15 * a, d) for k, (a, d) in ENVELOPES['js_hostile_pow'].items()}
 
 
 if __name__ == "__main__":
